@@ -23,7 +23,8 @@ VAL = {"int": lambda i: {"k": "int", "v": i + 1}, "str": lambda i: {"k": "str", 
 # ------------------------------------------------------------------------------------------ part A
 def part_a(ctx):
     sd = ctx.spec_dir()
-    ctx.tlc("FoReprCases", "FoReprCases.cfg", workers=1, timeout=3000, heap_gb=6)
+    slicecheck.write_cfg(ctx, "FoReprCases_run.cfg", "CONSTANTS\n  OutFile = \"repr_cases.ndjson\"\n  Big = %s\nINIT Init\nNEXT Next\n" % ("TRUE" if ctx.tier == "thorough" else "FALSE"))
+    ctx.tlc("FoReprCases", "FoReprCases_run.cfg", workers=1, timeout=3000, heap_gb=8)
     rows = core.read_ndjson(os.path.join(sd, "repr_cases.ndjson"))
     wd = ctx.mkdir("c03a")
     names = []
